@@ -666,15 +666,68 @@ def rule_NK(run: Run) -> RuleResult:
         if fn is None:
             raise AnalysisError(f"Namespace.{mname} not found")
         check(fn, prefix, mname)
+    # _from_type: the key of the namespace is parent.name (name at the root).  Read off a synthetic
+    # function made of the statements up to the last assignment of the prefix variable.
     ft = ns.methods["_from_type"]
-    ok = any(isinstance(s_, ast.Assign) and ast.unparse(s_.targets[0]) == "key" and ast.unparse(s_.value) == "f'{parent}.{name}' if parent else name" for s_ in ast.walk(ft))
-    res.add("labrea.option.Namespace._from_type:key is parent.name (or name at the root)", ok, f, ft.lineno, "", nec)
+    ok = False
+    shown = ""
+    last = max((i for i, st_ in enumerate(ft.body) if any(isinstance(x, ast.Name) and x.id == "key" and isinstance(x.ctx, ast.Store) for x in ast.walk(st_))), default=None)
+    if last is not None:
+        import copy as _copy
+        probe = _copy.deepcopy(ft)
+        probe.decorator_list = []
+        probe.body = probe.body[:last + 1] + [ast.Return(value=ast.Name(id="key", ctx=ast.Load()))]
+        ast.fix_missing_locations(probe)
+        from .interp import analyse_function
+        outs = {}
+        pn = [a.arg for a in ft.args.posonlyargs + ft.args.args + ft.args.kwonlyargs]
+        par = "parent" if "parent" in pn else (pn[2] if len(pn) > 2 else "parent")
+        for p in analyse_function(Ctx(repo), ns.module, probe):
+            if p.status != "ret" or p.ret is None:
+                continue
+            pol = cond_pol(p.conds, par)
+            if pol is None:
+                pol = {True: False, False: True}.get(cond_pol(p.conds, f"cmp:Is({par},Const(None))"))
+            outs.setdefault(pol, set()).add(p.ret.key())
+        shown = f"{ {k: sorted(v) for k, v in outs.items()} }"
+        name_terms = {"attr:__name__(typ)", "name", "attr:__name__(type_)", "attr:__name__(cls_)"}
+        ok = bool(outs.get(True)) and bool(outs.get(False)) and all(k_.startswith(f"fstr({par},Const('.'),") for k_ in outs[True]) \
+            and all(f"fstr({par},Const('.'),{k_})" in outs[True] for k_ in outs[False])
+    res.add("labrea.option.Namespace._from_type:key is parent.name (or name at the root)", ok, f, ft.lineno, shown[:200], nec)
+    # evaluate: the section under the namespace's own key of a dictionary populated from all members
     ev = ns.methods.get("evaluate")
-    ok = ev is not None and [ast.unparse(r.value) for r in ast.walk(ev) if isinstance(r, ast.Return)] == ["get_dotted_key(self._key, self._populate({}, options))"]
-    res.add("labrea.option.Namespace.evaluate:the section under its own key of the populated dictionary", ok, f, ev.lineno if ev else 0, "", nec)
+    eps_ = normal(run.paths(ns, "evaluate")) if ev is not None else []
+    ok = bool(eps_)
+    saw_member = False
+    for p in eps_:
+        k = p.ret.key()
+        if not k.startswith("call:confectioner.templating.get_dotted_key(Child(_key),"):
+            ok = False
+        if "set(" in k or "_populate(" in k or any(e.kind == "op" and e.op == "evaluate" for e in p.events):
+            saw_member = True
+    res.add("labrea.option.Namespace.evaluate:the section under its own key of the populated dictionary", ok and saw_member, f, ev.lineno if ev else 0,
+            f"{[p.ret.key()[:80] for p in eps_[:3]]}", nec)
     pp = ns.methods.get("_populate")
-    t = ast.unparse(pp) if pp else ""
-    ok = "result = member._populate(result, options)" in t and "result = member.set(result, member(options))" in t and "return result" in t
+    ok = pp is not None
+    if ok:
+        from .interp import analyse_function
+        rp_, op_ = astu.param_names(pp)[0], astu.param_names(pp)[1]
+        kinds = set()
+        for p in analyse_function(Ctx(repo), ns.module, pp, cls=ns):
+            if p.status != "ret" or p.ret is None:
+                ok = False
+                continue
+            k = p.ret.key()
+            M = "getitem(self,elem(attr:_members(self)))"
+            if k == rp_:
+                kinds.add("none")
+            elif k == f"call:_populate({M},{rp_},{op_})":
+                kinds.add("namespace")
+            elif k == f"call:set({M},{rp_},callres({M},{op_}))" or k == f"call:set({M},{rp_},call:evaluate({M},{op_}))":
+                kinds.add("option")
+            else:
+                ok = False
+        ok = ok and {"namespace", "option"} <= kinds
     res.add("labrea.option.Namespace._populate:members written with Option.set under their qualified keys", ok, f, pp.lineno if pp else 0, "", nec)
     if n < 5:
         raise AnalysisError(f"R-NK found only {n} key construction sites in Namespace")
